@@ -41,8 +41,9 @@ type CfgCore struct {
 	Strs                           []string
 	M                              map[string]int
 	Set                            map[string]struct{}
-	SM                             []map[string]int    // maps inside a slice
-	MM                             map[string][]string // slices inside a map
+	SM                             []map[string]int          // maps inside a slice
+	MM                             map[string][]string       // slices inside a map
+	MA                             map[string]map[string]int // maps inside a map; a source may place one inner map under several keys
 	Nest                           Nested
 	PN                             *Nested
 	Emb
@@ -93,6 +94,7 @@ type Part struct {
 	Set       []string            `json:"set,omitempty"`
 	SM        []map[string]int    `json:"sm,omitempty"`
 	MM        map[string][]string `json:"mm,omitempty"`
+	MA        map[string]int      `json:"ma,omitempty"` // key -> inner map number; equal numbers are one and the same map object
 	NestS     *string             `json:"nest_s,omitempty"`
 	NestN     *int                `json:"nest_n,omitempty"`
 	NestX     *int                `json:"nest_x,omitempty"`
@@ -131,6 +133,19 @@ func cloneM(m map[string]int) map[string]int {
 	out := make(map[string]int, len(m))
 	for k, v := range m {
 		out[k] = v
+	}
+	return out
+}
+
+// buildMA: one inner map object per number, shared by every key that names it.
+func buildMA(spec map[string]int) map[string]map[string]int {
+	inner := map[int]map[string]int{}
+	out := map[string]map[string]int{}
+	for k, n := range spec {
+		if inner[n] == nil {
+			inner[n] = map[string]int{"v": n}
+		}
+		out[k] = inner[n]
 	}
 	return out
 }
@@ -218,6 +233,9 @@ func fillValue(e reflect.Value, p *Part, owner int) {
 			out[k] = cloneStrs(l)
 		}
 		fld("MM").Set(reflect.ValueOf(out))
+	}
+	if p.MA != nil {
+		fld("MA").Set(reflect.ValueOf(buildMA(p.MA)))
 	}
 	if p.NestS != nil || p.NestN != nil || p.NestX != nil {
 		f := fld("Nest")
@@ -322,6 +340,9 @@ func defaultsFrom(p *Part) *CfgCore {
 		for k, l := range p.MM {
 			c.MM[k] = cloneStrs(l)
 		}
+	}
+	if p.MA != nil {
+		c.MA = buildMA(p.MA)
 	}
 	if p.NestS != nil {
 		c.Nest.S = *p.NestS
